@@ -285,3 +285,9 @@ def r07_8(ctx):
     from .c08 import r08_2
     collocation_content(ctx)
     r08_2(ctx)
+
+
+@rule("R07.9", min_instances=10, desc="placeholder resolution used by every sampled / valued expression: pairing, phase override, fixed point (shared with C05)")
+def r07_9(ctx):
+    from .c05 import r05_9
+    r05_9(ctx)
